@@ -39,7 +39,10 @@ def main():
         for d, dt in DT.items():
             n = 200 + 37 * pos + 11 * d
             t = np.arange(n) * dt
-            mk = lambda: np.sin(2 * np.pi * rng.uniform(2, 9) * t) + 0.6 * rng.normal(size=n)
+            # the recordings of one list differ by orders of magnitude in amplitude (2^-16 .. 2^16: m/s next to raw counts);
+            # a curve is a ratio - it is not affected by its own scale, let alone by the scale of its neighbours
+            amp_ = 2.0 ** (8 * (pos - 3))
+            mk = lambda: (np.sin(2 * np.pi * rng.uniform(2, 9) * t) + 0.6 * rng.normal(size=n)) * amp_
             recs[(pos, d)] = h.SeismicRecording3C(h.TimeSeries(mk(), dt), h.TimeSeries(mk(), dt), h.TimeSeries(mk(), dt),
                                                   degrees_from_north=10.0 * pos)
 
